@@ -95,20 +95,23 @@ package provisioning
 //verif:def liveCP(svc, id) = ptr(conn_inst(svc, id), "*connector.Instance").ProcessorIDs
 
 //verif:iface ConnectorService.Update(recv, ctx, id, plugin, cfg) (inst, err)
+//verif:refines github.com/conduitio/conduit/pkg/connector.(*Service).Update
 //verif:modifies ptr(conn_inst(recv, id), "*connector.Instance").Plugin, ptr(conn_inst(recv, id), "*connector.Instance").Config, ptr(conn_inst(recv, id), "*connector.Instance").UpdatedAt
-//verif:ensures[returns-held-instance] err == nil ==> inst != nil && inst == ptr(conn_inst(recv, id), "*connector.Instance")
+//verif:ensures[returns-held-instance] err == nil ==> inst == ptr(conn_inst(recv, id), "*connector.Instance")
 
 //verif:iface ConnectorService.RemoveProcessor(recv, ctx, id, procID) (inst, err)
+//verif:refines github.com/conduitio/conduit/pkg/connector.(*Service).RemoveProcessor
 //verif:modifies liveCP(recv, id)[*], liveCP(recv, id), ptr(conn_inst(recv, id), "*connector.Instance").UpdatedAt
 //verif:ensures[removes-first-occurrence] err == nil ==> len(liveCP(recv, id)) == old(len(liveCP(recv, id))) - 1 && exists x in [0, old(len(liveCP(recv, id)))): old(liveCP(recv, id)[x]) == procID && (forall m in [0, x): old(liveCP(recv, id)[m]) != procID && liveCP(recv, id)[m] == old(liveCP(recv, id)[m])) && (forall m in [x, len(liveCP(recv, id))): liveCP(recv, id)[m] == old(liveCP(recv, id)[m + 1]))
 //verif:ensures[unchanged-on-error] err != nil ==> len(liveCP(recv, id)) == old(len(liveCP(recv, id))) && forall m in [0, len(liveCP(recv, id))): liveCP(recv, id)[m] == old(liveCP(recv, id)[m])
 //verif:ensures[in-place-or-fresh] base(liveCP(recv, id)) == old(base(liveCP(recv, id))) || fresh(liveCP(recv, id)) || isnil(liveCP(recv, id))
 
 //verif:iface ConnectorService.AddProcessor(recv, ctx, id, procID) (inst, err)
+//verif:refines github.com/conduitio/conduit/pkg/connector.(*Service).AddProcessor
 //verif:modifies liveCP(recv, id)[*], liveCP(recv, id), ptr(conn_inst(recv, id), "*connector.Instance").UpdatedAt
 //verif:ensures[appends] err == nil ==> len(liveCP(recv, id)) == old(len(liveCP(recv, id))) + 1 && liveCP(recv, id)[len(liveCP(recv, id)) - 1] == procID && forall m in [0, old(len(liveCP(recv, id)))): liveCP(recv, id)[m] == old(liveCP(recv, id)[m])
 //verif:ensures[unchanged-on-error] err != nil ==> len(liveCP(recv, id)) == old(len(liveCP(recv, id))) && forall m in [0, len(liveCP(recv, id))): liveCP(recv, id)[m] == old(liveCP(recv, id)[m])
-//verif:ensures[in-place-or-fresh] !isnil(liveCP(recv, id)) && (base(liveCP(recv, id)) == old(base(liveCP(recv, id))) || fresh(liveCP(recv, id)))
+//verif:ensures[in-place-or-fresh] err == nil ==> !isnil(liveCP(recv, id)) && (base(liveCP(recv, id)) == old(base(liveCP(recv, id))) || fresh(liveCP(recv, id)))
 
 //verif:func (updateConnectorAction).isEqual(a, ids, processors) (r)
 //verif:pure
@@ -118,6 +121,7 @@ package provisioning
 
 //verif:func (updateConnectorAction).update(a, ctx, cfg) (err)
 //verif:call[remove-only-listed] ConnectorService.RemoveProcessor requires arg1 == cfg.ID && exists x in [0, len(liveCP(a.connectorService, cfg.ID))): liveCP(a.connectorService, cfg.ID)[x] == arg2
+//verif:ensures[position-kept] ptr(conn_inst(a.connectorService, cfg.ID), "*connector.Instance").State == old(ptr(conn_inst(a.connectorService, cfg.ID), "*connector.Instance").State)
 //verif:ensures[converges] err == nil ==> len(liveCP(a.connectorService, cfg.ID)) == len(cfg.Processors) && forall k in [0, len(cfg.Processors)): liveCP(a.connectorService, cfg.ID)[k] == cfg.Processors[k].ID
 //verif:loop 0 vars j=rangeindex
 //verif:loop 0 invariant j < len(procIDs) && base(procIDs) != base(liveCP(a.connectorService, cfg.ID)) && c == ptr(conn_inst(a.connectorService, cfg.ID), "*connector.Instance") && len(liveCP(a.connectorService, cfg.ID)) == len(procIDs) - (j + 1) && (len(liveCP(a.connectorService, cfg.ID)) > 0 ==> liveCP(a.connectorService, cfg.ID)[0] == procIDs[j + 1]) && forall m in [0, len(liveCP(a.connectorService, cfg.ID))): liveCP(a.connectorService, cfg.ID)[m] == procIDs[j + 1 + m]
@@ -129,35 +133,41 @@ package provisioning
 //verif:def livePP(svc, id) = ptr(pl_inst(svc, id), "*pipeline.Instance").ProcessorIDs
 
 //verif:iface PipelineService.Update(recv, ctx, id, cfg) (inst, err)
+//verif:refines github.com/conduitio/conduit/pkg/pipeline.(*Service).Update
 //verif:modifies plInst(recv, id).Config, plInst(recv, id).UpdatedAt
-//verif:ensures[returns-held-instance] err == nil ==> inst != nil && inst == plInst(recv, id)
+//verif:ensures[returns-held-instance] err == nil ==> inst == plInst(recv, id)
 
 //verif:iface PipelineService.UpdateDLQ(recv, ctx, id, cfg) (inst, err)
+//verif:refines github.com/conduitio/conduit/pkg/pipeline.(*Service).UpdateDLQ
 //verif:modifies plInst(recv, id).DLQ, plInst(recv, id).UpdatedAt
 
 //verif:iface PipelineService.RemoveConnector(recv, ctx, id, connID) (inst, err)
+//verif:refines github.com/conduitio/conduit/pkg/pipeline.(*Service).RemoveConnector
 //verif:modifies livePC(recv, id)[*], livePC(recv, id), plInst(recv, id).UpdatedAt
 //verif:ensures[removes-first-occurrence] err == nil ==> len(livePC(recv, id)) == old(len(livePC(recv, id))) - 1 && exists x in [0, old(len(livePC(recv, id)))): old(livePC(recv, id)[x]) == connID && (forall m in [0, x): old(livePC(recv, id)[m]) != connID && livePC(recv, id)[m] == old(livePC(recv, id)[m])) && (forall m in [x, len(livePC(recv, id))): livePC(recv, id)[m] == old(livePC(recv, id)[m + 1]))
 //verif:ensures[unchanged-on-error] err != nil ==> len(livePC(recv, id)) == old(len(livePC(recv, id))) && forall m in [0, len(livePC(recv, id))): livePC(recv, id)[m] == old(livePC(recv, id)[m])
 //verif:ensures[in-place-or-fresh] base(livePC(recv, id)) == old(base(livePC(recv, id))) || fresh(livePC(recv, id)) || isnil(livePC(recv, id))
 
 //verif:iface PipelineService.AddConnector(recv, ctx, id, connID) (inst, err)
+//verif:refines github.com/conduitio/conduit/pkg/pipeline.(*Service).AddConnector
 //verif:modifies livePC(recv, id)[*], livePC(recv, id), plInst(recv, id).UpdatedAt
 //verif:ensures[appends] err == nil ==> len(livePC(recv, id)) == old(len(livePC(recv, id))) + 1 && livePC(recv, id)[len(livePC(recv, id)) - 1] == connID && forall m in [0, old(len(livePC(recv, id)))): livePC(recv, id)[m] == old(livePC(recv, id)[m])
 //verif:ensures[unchanged-on-error] err != nil ==> len(livePC(recv, id)) == old(len(livePC(recv, id))) && forall m in [0, len(livePC(recv, id))): livePC(recv, id)[m] == old(livePC(recv, id)[m])
-//verif:ensures[in-place-or-fresh] !isnil(livePC(recv, id)) && (base(livePC(recv, id)) == old(base(livePC(recv, id))) || fresh(livePC(recv, id)))
+//verif:ensures[in-place-or-fresh] err == nil ==> !isnil(livePC(recv, id)) && (base(livePC(recv, id)) == old(base(livePC(recv, id))) || fresh(livePC(recv, id)))
 
 //verif:iface PipelineService.RemoveProcessor(recv, ctx, id, procID) (inst, err)
+//verif:refines github.com/conduitio/conduit/pkg/pipeline.(*Service).RemoveProcessor
 //verif:modifies livePP(recv, id)[*], livePP(recv, id), plInst(recv, id).UpdatedAt
 //verif:ensures[removes-first-occurrence] err == nil ==> len(livePP(recv, id)) == old(len(livePP(recv, id))) - 1 && exists x in [0, old(len(livePP(recv, id)))): old(livePP(recv, id)[x]) == procID && (forall m in [0, x): old(livePP(recv, id)[m]) != procID && livePP(recv, id)[m] == old(livePP(recv, id)[m])) && (forall m in [x, len(livePP(recv, id))): livePP(recv, id)[m] == old(livePP(recv, id)[m + 1]))
 //verif:ensures[unchanged-on-error] err != nil ==> len(livePP(recv, id)) == old(len(livePP(recv, id))) && forall m in [0, len(livePP(recv, id))): livePP(recv, id)[m] == old(livePP(recv, id)[m])
 //verif:ensures[in-place-or-fresh] base(livePP(recv, id)) == old(base(livePP(recv, id))) || fresh(livePP(recv, id)) || isnil(livePP(recv, id))
 
 //verif:iface PipelineService.AddProcessor(recv, ctx, id, procID) (inst, err)
+//verif:refines github.com/conduitio/conduit/pkg/pipeline.(*Service).AddProcessor
 //verif:modifies livePP(recv, id)[*], livePP(recv, id), plInst(recv, id).UpdatedAt
 //verif:ensures[appends] err == nil ==> len(livePP(recv, id)) == old(len(livePP(recv, id))) + 1 && livePP(recv, id)[len(livePP(recv, id)) - 1] == procID && forall m in [0, old(len(livePP(recv, id)))): livePP(recv, id)[m] == old(livePP(recv, id)[m])
 //verif:ensures[unchanged-on-error] err != nil ==> len(livePP(recv, id)) == old(len(livePP(recv, id))) && forall m in [0, len(livePP(recv, id))): livePP(recv, id)[m] == old(livePP(recv, id)[m])
-//verif:ensures[in-place-or-fresh] !isnil(livePP(recv, id)) && (base(livePP(recv, id)) == old(base(livePP(recv, id))) || fresh(livePP(recv, id)))
+//verif:ensures[in-place-or-fresh] err == nil ==> !isnil(livePP(recv, id)) && (base(livePP(recv, id)) == old(base(livePP(recv, id))) || fresh(livePP(recv, id)))
 
 //verif:func (updatePipelineAction).isEqualConnectors(a, ids, connectors) (r)
 //verif:pure
@@ -189,3 +199,37 @@ package provisioning
 //verif:loop 2 invariant j2 < len(processorIDs) && convC(a.pipelineService, cfg.ID, cfg) && distinctPL(a.pipelineService, cfg.ID) && base(processorIDs) != base(livePP(a.pipelineService, cfg.ID)) && len(livePP(a.pipelineService, cfg.ID)) == len(processorIDs) - (j2 + 1) && (len(livePP(a.pipelineService, cfg.ID)) > 0 ==> livePP(a.pipelineService, cfg.ID)[0] == processorIDs[j2 + 1]) && forall m in [0, len(livePP(a.pipelineService, cfg.ID))): livePP(a.pipelineService, cfg.ID)[m] == processorIDs[j2 + 1 + m]
 //verif:loop 3 vars j3=rangeindex
 //verif:loop 3 invariant j3 < len(cfg.Processors) && convC(a.pipelineService, cfg.ID, cfg) && distinctPL(a.pipelineService, cfg.ID) && len(livePP(a.pipelineService, cfg.ID)) == j3 + 1 && forall m in [0, j3 + 1): livePP(a.pipelineService, cfg.ID)[m] == cfg.Processors[m].ID
+
+// Do applies the new configuration, Rollback the old one (so a rolled-back update
+// converges, by the clauses above, to what was there before); delete actions are the
+// mirror image of create actions.
+//verif:func (updatePipelineAction).Do(a, ctx) (err)
+//verif:call[applies-new] (updatePipelineAction).update requires arg2 == a.newConfig
+//verif:func (updatePipelineAction).Rollback(a, ctx) (err)
+//verif:call[restores-old] (updatePipelineAction).update requires arg2 == a.oldConfig
+//verif:func (updateConnectorAction).Do(a, ctx) (err)
+//verif:call[applies-new] (updateConnectorAction).update requires arg2 == a.newConfig
+//verif:func (updateConnectorAction).Rollback(a, ctx) (err)
+//verif:call[restores-old] (updateConnectorAction).update requires arg2 == a.oldConfig
+//verif:func (updateProcessorAction).Do(a, ctx) (err)
+//verif:call[applies-new] (updateProcessorAction).update requires arg2 == a.newConfig
+//verif:func (updateProcessorAction).Rollback(a, ctx) (err)
+//verif:call[restores-old] (updateProcessorAction).update requires arg2 == a.oldConfig
+//verif:func (deletePipelineAction).Do(a, ctx) (err)
+//verif:call[mirror-of-create] (createPipelineAction).Rollback requires true
+//verif:never (createPipelineAction).Do
+//verif:func (deletePipelineAction).Rollback(a, ctx) (err)
+//verif:call[mirror-of-create] (createPipelineAction).Do requires true
+//verif:never (createPipelineAction).Rollback
+//verif:func (deleteConnectorAction).Do(a, ctx) (err)
+//verif:call[mirror-of-create] (createConnectorAction).Rollback requires true
+//verif:never (createConnectorAction).Do
+//verif:func (deleteConnectorAction).Rollback(a, ctx) (err)
+//verif:call[mirror-of-create] (createConnectorAction).Do requires true
+//verif:never (createConnectorAction).Rollback
+//verif:func (deleteProcessorAction).Do(a, ctx) (err)
+//verif:call[mirror-of-create] (createProcessorAction).Rollback requires true
+//verif:never (createProcessorAction).Do
+//verif:func (deleteProcessorAction).Rollback(a, ctx) (err)
+//verif:call[mirror-of-create] (createProcessorAction).Do requires true
+//verif:never (createProcessorAction).Rollback
